@@ -270,9 +270,9 @@ pub(super) fn derive_schema(input: TokenStream) -> syn::Result<TokenStream> {
                 Ok(schema)
             }
 
-            Fields::Unnamed(FieldsUnnamed { paren_token:_, unnamed }) if unnamed.len() == 0 => {/* empty */
+            Fields::Unnamed(FieldsUnnamed { paren_token:_, unnamed }) if unnamed.len() == 0 => {/* empty: serde writes `[]` */
                 Ok(quote! {
-                    ::ohkami::openapi::object()
+                    ::ohkami::openapi::array(::ohkami::openapi::object()).maxItems(0)
                 })
             }
             Fields::Unit => {/* empty */
